@@ -68,6 +68,10 @@ pub fn run(input: &mut dyn BufRead, out: &mut dyn Write, _args: &[String]) -> R 
                 // a sequence of frames on one fresh tracker; "clock": ms values set before each frame (hook H1)
                 let mut cache: TtlCache<ConnectionKey, TcpTimestamp> = TtlCache::new(u(&v["cap"].as_u64().map(|x| json!(x)).unwrap_or(json!(1000))) as usize);
                 let use_matcher = v["matcher"].as_bool().unwrap_or(true);
+                // "db": the text of a database to match against instead of the bundled one
+                let custom = v.get("db").and_then(|t| t.as_str()).map(|t| <Database as std::str::FromStr>::from_str(t).expect("generated database must load"));
+                let custom_matcher = custom.as_ref().map(SignatureMatcher::new);
+                let matcher = custom_matcher.as_ref().unwrap_or(&matcher);
                 let res: Vec<Value> = arr(&v["frames"])
                     .iter()
                     .enumerate()
@@ -76,7 +80,7 @@ pub fn run(input: &mut dyn BufRead, out: &mut dyn Write, _args: &[String]) -> R 
                             crate::clock::set_ms(c[i].as_u64().unwrap());
                         }
                         let b = if f.is_string() { hex(f.as_str().unwrap()) } else { bytes(f) };
-                        one(&b, &mut cache, if use_matcher { Some(&matcher) } else { None })
+                        one(&b, &mut cache, if use_matcher { Some(matcher) } else { None })
                     })
                     .collect();
                 json!({"id": id, "out": res})
